@@ -7,7 +7,8 @@ from .. import schemerules as R
 EXPLANATION = (
     "Structural sources of spelling dependence inside the repository's own "
     "code. R03.1: match sets are de-duplicated by order-canonical keys "
-    "(frozenset / sorted tuple); no tuple(set(.)) anywhere in GroupAdd. "
+    "(frozenset / sorted tuple); no tuple(set(.)) anywhere in GroupAdd; the "
+    "group name lists its peripherals in plain sorted order. "
     "R03.2: on both input forms (molecule object, SMILES string) every "
     "local of GetDescriptors is bound before it is read, both forms run "
     "the same stages in the same order (rule R02.1), and every in-place "
@@ -44,4 +45,13 @@ def run(chk, repo, tier):
         _rv.check(chk, 'R03.5', repo, 'pgradd/RDkitWrapper/MolQuery.py', q,
                   '%s is unchanged from its reviewed reference' % q)
     R.message_concat_types(chk, repo, 'R03.2', [R.SCH, 'pgradd/Error.py'])
+    # the name a group is looked up by must not depend on the order in which
+    # the neighbours were met: peripherals in one total (plain sorted) order
+    from .. import refcmp as _refcmp
+    from . import c19 as _c19
+    _refcmp.check(chk, 'R03.1', _c19.GRP,
+                  repo.func(_c19.GRP, 'Group._canonical_name'),
+                  _c19.REF_CANON, key='canonical-name',
+                  what='the group name lists the peripherals in sorted order '
+                       '(a total order: equal multisets give one name)')
 
